@@ -5,10 +5,76 @@
 
 package dsmr
 
-// VerifMinimumExpiry exposes the minimum expiry restored or set on the storage
-// to the verification harness. Only compiled with the verif build tag.
+import (
+	"context"
+
+	"github.com/ava-labs/avalanchego/ids"
+	"github.com/ava-labs/avalanchego/trace"
+	"github.com/ava-labs/avalanchego/utils/logging"
+	"github.com/ava-labs/avalanchego/utils/wrappers"
+
+	"github.com/ava-labs/hypersdk/codec"
+	"github.com/ava-labs/hypersdk/consts"
+	"github.com/ava-labs/hypersdk/internal/validitywindow"
+	"github.com/ava-labs/hypersdk/utils"
+)
+
+// This file only exists with the verif build tag. It lets the verification
+// harness, which lives outside this package, assemble complete nodes from the
+// package's own (otherwise unexported) parts. It adds no behaviour.
+
+// VerifMinimumExpiry exposes the minimum expiry restored or set on the storage.
 func (s *ChunkStorage[T]) VerifMinimumExpiry() int64 {
 	s.lock.RLock()
 	defer s.lock.RUnlock()
 	return s.minimumExpiry
+}
+
+func VerifNewGetChunkHandler[T Tx](storage *ChunkStorage[T]) *GetChunkHandler[T] {
+	return &GetChunkHandler[T]{storage: storage}
+}
+
+func VerifNewChunkSignatureRequestVerifier[T Tx](verifier Verifier[T], storage *ChunkStorage[T]) ChunkSignatureRequestVerifier[T] {
+	return ChunkSignatureRequestVerifier[T]{verifier: verifier, storage: storage}
+}
+
+func VerifNewChunkCertificateGossipHandler[T Tx](storage *ChunkStorage[T]) ChunkCertificateGossipHandler[T] {
+	return ChunkCertificateGossipHandler[T]{storage: storage}
+}
+
+type verifChainIndex struct {
+	get func(ctx context.Context, id ids.ID) (Block, error)
+}
+
+func (v verifChainIndex) GetExecutionBlock(ctx context.Context, id ids.ID) (validitywindow.ExecutionBlock[*emapChunkCertificate], error) {
+	b, err := v.get(ctx, id)
+	if err != nil {
+		return nil, err
+	}
+	return NewValidityWindowBlock(b), nil
+}
+
+// VerifNewTimeValidityWindow builds the real time validity window over chunk certificates.
+func VerifNewTimeValidityWindow(
+	ctx context.Context,
+	log logging.Logger,
+	tracer trace.Tracer,
+	getBlock func(ctx context.Context, id ids.ID) (Block, error),
+	head Block,
+	getValidityWindow func(int64) int64,
+) (TimeValidityWindow[*emapChunkCertificate], error) {
+	return validitywindow.NewTimeValidityWindow[*emapChunkCertificate](ctx, log, tracer, verifChainIndex{get: getBlock}, NewValidityWindowBlock(head), getValidityWindow)
+}
+
+// VerifNewBlock assembles a block from a header and certificates exactly as BuildBlock does,
+// without BuildBlock's filtering (a block as another, possibly faulty, proposer could send it).
+func VerifNewBlock(header BlockHeader, certs []*ChunkCertificate) (Block, error) {
+	blk := Block{BlockHeader: header, ChunkCerts: certs}
+	packer := wrappers.Packer{Bytes: make([]byte, 0, InitialChunkSize), MaxSize: consts.NetworkSizeLimit}
+	if err := codec.LinearCodec.MarshalInto(blk, &packer); err != nil {
+		return Block{}, err
+	}
+	blk.blkBytes = packer.Bytes
+	blk.blkID = utils.ToID(blk.blkBytes)
+	return blk, nil
 }
